@@ -58,6 +58,7 @@ class State:
         self.ghost_names: set = set()
         self.in_binder = 0
         self.bound: dict = {}
+        self.objattrs: dict = {}  # per-path attribute stores of opaque objects: id(VObj) -> {attr: value}
 
     def clone(self) -> "State":
         s = State()
@@ -73,6 +74,7 @@ class State:
         s.ghost_names = set(self.ghost_names)
         s.in_binder = self.in_binder
         s.bound = dict(self.bound)
+        s.objattrs = {k: dict(v) for k, v in self.objattrs.items()}
         return s
 
     def assume(self, *conds):
@@ -292,6 +294,10 @@ class Exec:
                 k = fresh("k", I)
                 st.assume(z3.ForAll([k], z3.Implies(z3.And(0 <= k, k < n), z3.And(arr[k] >= 0, arr[k] < st.alloc))))
             return VList(arr, n, ek)
+        if t == "obj:registry?":
+            tr, isn = z3.Bool(name + "_truthy"), z3.Bool(name + "_isnone")
+            st.assume(z3.Implies(isn, z3.Not(tr)))
+            return VObj("registry", {"_truthy": tr, "_isnone": isn})
         if t.startswith("obj:"):
             return VObj(t[4:], {})
         raise Unsupported(f"parameter type {t!r}")
@@ -471,6 +477,12 @@ class Exec:
         return r + [(st, Flow.NEXT, None)]
 
     def stmt_Assign(self, stmt, st):
+        if isinstance(stmt.value, ast.IfExp) and self.c.types.get("@fork_ifexp"):
+            v = stmt.value
+            a1 = ast.Assign(targets=stmt.targets, value=v.body, lineno=stmt.lineno)
+            a2 = ast.Assign(targets=stmt.targets, value=v.orelse, lineno=stmt.lineno)
+            node = ast.If(test=v.test, body=[a1], orelse=[a2], lineno=stmt.lineno)
+            return self.stmt_If(node, st)
         forks = self.try_statement_call(stmt.value, st)
         if forks is not None:
             out = []
@@ -920,7 +932,7 @@ class Exec:
                 self.heap_store(obj, t.attr, v, st)
                 return
             if isinstance(obj, VObj):
-                obj.attrs[t.attr] = v
+                st.objattrs.setdefault(id(obj), {})[t.attr] = v
                 return
             raise Unsupported(f"attribute store on {obj}")
         if isinstance(t, ast.Subscript):
@@ -1323,6 +1335,8 @@ class Exec:
 
     def identical(self, a: V, b: V):
         if isinstance(b, VNone):
+            if isinstance(a, VObj) and "_isnone" in a.attrs:
+                return a.attrs["_isnone"]
             if isinstance(a, VNone):
                 return z3.BoolVal(True)
             if isinstance(a, VRef):
@@ -1336,6 +1350,8 @@ class Exec:
             return self.identical(b, a)
         if isinstance(a, VRef) and isinstance(b, VRef):
             return a.z == b.z
+        if isinstance(a, VObj) and isinstance(b, VObj):
+            return z3.BoolVal(a is b)
         if isinstance(a, VBytes) and isinstance(b, VBytes) and a.z.eq(b.z):
             return z3.BoolVal(True)
         raise Unsupported(f"identity of {a.kind},{b.kind}")
@@ -1475,6 +1491,9 @@ class Exec:
         if isinstance(obj, VRef):
             return self.heap_load(obj, node.attr, st)
         if isinstance(obj, VObj):
+            ov = st.objattrs.get(id(obj), {})
+            if node.attr in ov:
+                return ov[node.attr]
             if node.attr in obj.attrs:
                 return obj.attrs[node.attr]
             return BT.obj_attr(self, obj, node.attr, st)
@@ -1704,7 +1723,8 @@ class Exec:
             r = self.alloc_node(st)
             # a freshly allocated object: fields are unconstrained until __init__ sets them
             for f in HEAP_FIELDS:
-                st.heap[f] = z3.Store(st.heap[f], r.z, fresh(f"uninit_{f}", HEAP_FIELDS[f][0]))
+                # ghost convention: a node constructed by the code under proof is the top of its own structure
+                st.heap[f] = z3.Store(st.heap[f], r.z, r.z if f == "own" else fresh(f"uninit_{f}", HEAP_FIELDS[f][0]))
             st.heap["nchildren"] = z3.Store(st.heap["nchildren"], r.z, z3.IntVal(0))
             self.apply_contract(c, [r] + args, kwargs, st)
             return r
